@@ -471,6 +471,27 @@ def gen_curve(rng, scale, cid, c, op_de, op_ck):
             cl = 'one_bad'
         yield op_ck, curve_args(cid, c, 0, 0, proj) + [[1]] + [(prj if proj else aff)(P) for P in batch], \
             'batch_check/%s/n%d/p%d' % (cl, len(batch), proj)
+    # batches whose invalid members CANCEL (every element must be validated on its own: a check of the sum, or of a
+    # random linear combination with correlated coefficients, accepts them): [P, -P], [G + T, G - T], T + T' = O, each
+    # at random positions among valid points.  P ranges over on-curve points outside the subgroup (h > 1 only).
+    rogue = [P for P, cl in pts if cl in ('on_curve_any', 'cofactor_torsion', 'subgroup+torsion', 'order2', 'order4') and P is not None]
+
+    def negp(P):
+        return (P[0], F.neg(P[1])) if kind == 'sw' else (F.neg(P[0]), P[1])
+    if rogue:
+        for _ in range(1 if lite else 2 * (1 if scale == 1 else 3)):
+            for proj in (0, 1):
+                P = rng.choice(rogue)
+                k = rng.randrange(0, 2 if lite else 4)
+                batch = [rng.choice(good) for _ in range(k)]
+                batch.insert(rng.randrange(len(batch) + 1), P)
+                batch.insert(rng.randrange(len(batch) + 1), negp(P))
+                if rng.randrange(2):                      # a second cancelling pair
+                    Q = rng.choice(rogue)
+                    batch.insert(rng.randrange(len(batch) + 1), negp(Q))
+                    batch.insert(rng.randrange(len(batch) + 1), Q)
+                yield op_ck, curve_args(cid, c, 0, 0, proj) + [[1]] + [(prj if proj else aff)(P_) for P_ in batch], \
+                    'batch_check/cancelling_bad/n%d/p%d' % (len(batch), proj)
 
 
 def gen_toy_exhaustive(rng, scale):
